@@ -37,7 +37,7 @@ def enumerated(tier, seed):
 
 
 def searches(tier):
-    return [("histories", _case, 1500 if tier == "quick" else 150000)]
+    return [("histories", _case, 1500 if tier == "quick" else 100000)]
 
 
 def render(case):
